@@ -75,7 +75,7 @@ func main() {
 		r.Cases("round", n, 1, func(c *vkit.Case) { runRound(c) })
 		// PeriodicOrTrigger with a tiny interval under trigger load: the periodic runs must go on after
 		// the triggers stop (a mishandled timer Stop/Reset under trigger load leaves the timer dead).
-		r.Cases("pot-small", r.Scale(24, 300), 1, func(c *vkit.Case) { potSmall(c) })
+		r.Cases("pot-small", r.Scale(60, 600), 1, func(c *vkit.Case) { potSmall(c) })
 		r.Floor("PeriodicOrTrigger rounds with a tiny interval under trigger load", r.Table("pot-small", "rounds"), 10)
 		r.Floor("registrations that raced the stop call", r.Table("races", "registration overlapping or after the stop call"), 200)
 		r.Floor("trigger calls made while a run was in progress", r.Table("triggers", "call during a run"), 200)
@@ -514,7 +514,7 @@ func describe(rd *round) []map[string]any {
 func potSmall(c *vkit.Case) {
 	r := c.R
 	rnd := c.Rand
-	interval := time.Duration([]int{10, 20, 50}[c.Index%3]) * time.Microsecond
+	interval := time.Duration([]int{10, 20, 10, 5, 50}[c.Index%5]) * time.Microsecond
 	jitter := interval / 4
 	grp := xsync.NewGroup(context.Background())
 	var runs atomic.Int64
@@ -542,7 +542,7 @@ func potSmall(c *vkit.Case) {
 			}
 		}()
 	}
-	time.Sleep(time.Duration(rnd.Range(5, 25)) * time.Millisecond)
+	time.Sleep(time.Duration(rnd.Range(15, 50)) * time.Millisecond)
 	close(stopHammer)
 	wg.Wait()
 	during := runs.Load()
